@@ -168,15 +168,15 @@ class Profile:
 PROFILES = {
     # axially symmetric, any power, n0 != 1 allowed, mirrors, negative thickness after mirrors
     'paraxial': Profile(max_surfs=10, shapes=['standard', 'even_asphere'], object_medium=True, image_refracts=True,
-                        max_n=4.0),
+                        max_n=4.0, negative_fields=True, unsorted_fields=True),
     # spheres and planes only (Seidel)
-    'seidel': Profile(max_surfs=8, shapes=['standard'], allow_conic=False, image_refracts=False),
+    'seidel': Profile(max_surfs=8, shapes=['standard'], allow_conic=False, image_refracts=False, negative_fields=True),
     # everything, for the per-surface law checks
     'real': Profile(max_surfs=10, shapes=['standard', 'standard', 'even_asphere', 'polynomial', 'chebyshev'],
                     allow_tilt=True, allow_absorb=True, keep_edges=True, sym_coef_from=0),
     # centred systems for real -> paraxial limits
     'centred': Profile(max_surfs=7, shapes=['standard', 'standard', 'even_asphere'], keep_edges=True, rho_min=1.5,
-                       steep_prob=0.1),
+                       steep_prob=0.1, negative_fields=True),
     # intensity bookkeeping
     'intensity': Profile(max_surfs=8, shapes=['standard', 'standard', 'even_asphere'], allow_tilt=True,
                          allow_absorb=True, allow_apertures=True, allow_coatings=True, keep_edges=True),
@@ -186,7 +186,8 @@ PROFILES = {
     # well behaved imaging lenses (positive power, real image) for wavefront/PSF/analysis checks
     'imaging': Profile(max_surfs=6, shapes=['standard', 'standard', 'even_asphere'], allow_mirror=False,
                        keep_edges=True, rho_min=3.0, steep_prob=0.0, ap_types=['EPD', 'imageFNO'],
-                       max_field_deg=8.0, allow_vignetting=False, max_n=2.0, zero_thickness=False, positive_power=True),
+                       max_field_deg=8.0, allow_vignetting=False, max_n=2.0, zero_thickness=False, positive_power=True,
+                       negative_fields=True),
 }
 
 
